@@ -66,6 +66,11 @@ REGISTRY = {
                            'readers not yet under contract: --geo-rotate/translate/scale, --laplace-load-a/-b pairing, --skin-effect-*, --insulation-load, --theta/--phi/--near-field (native fuzz only)'],
                 trusted=['argparse: action=append collects values in command-line order; type= applies the constructor and turns ValueError into the usage error',
                          'constructor raises clauses as summarised (ValueError; Medium also TypeError)']),
+    'C18': dict(module='contracts.C18', level='proof',
+                native=native_sweep('c18_basic.py', 'the generated answers are read back prompt by prompt (assumed grammar, versions 9/12/13) with an exact-match emulation of BASIC\'s end joining, rebuilt with the real solver and compared (wires, sources in degrees, loads, media, pulse count, feed impedance for non-emulated models)', 120, 3000),
+                undecided=['that BASIC MININEC\'s own connection logic reproduces the pulse numbering (the BASIC program is not in the repository): native emulation only'],
+                assumptions=['ASSUMED CONTRACT ON AN EXTERNAL PROGRAM: the MININEC-3 prompt grammar (order and content of answers, versions 9/12/13) as written in contracts/C18.py and native/c18_basic.py'],
+                trusted=['% conversions carry their value']),
     'C19': dict(module='contracts.C19', level='other',
                 native=native_sweep('c19_format.py', 'run-time contract of format_float over a boundary lattice (43 decades x 2 signs x use_e x rounding-boundary mantissas) and read-back of complete reports of electrically tiny and ordinary antennas', 20, 3000),
                 undecided=[],
